@@ -31,6 +31,11 @@ def run(ctx):
         if "{closure" in n:
             return True
         rest = n[len(P):] if n.startswith(P) else None
+        # non-public conveniences on the rule views (`AnyPushRuleRef::is_user_defined() = !self.is_server_default()`): seen through
+        if rest is not None and re.match(r"iter::AnyPushRule(Ref::<'a>)?::\w+$", rest):
+            g = w.lookup(n)
+            if g is not None and "body" in g and g.get("vis") != "Public" and len(g["body"]["blocks"]) <= 12:
+                return True
         if rest is None or "<" in rest or rest == "insert_and_move_rule":
             return False
         if "::" not in rest:
